@@ -18,6 +18,7 @@ type Gen struct {
 	Ctx      *faulttree.Node
 	FuncBias bool // favour function calls (more function-table lookups per compile)
 	NoFuncs  bool // never emit a function call (keeps the function table untouched)
+	Focus    int  // 1+index of a function that half of the calls use (0: none)
 	// reach probes
 	UsedDeref, UsedCurrent, UsedPred, UsedText, UsedFunc bool
 }
@@ -39,6 +40,66 @@ var numvals = []string{"0", "1", "2", "42", "1.5", ".5", "1e3", "007", "3.", "1e
 var stepnames = []string{"a", "b", "c", "if", "name", "mtu", "x", "y", "k", "v", "pfx:a", "p:*", "*", "id"}
 
 func (g *Gen) pick(l []string) string { return l[g.T.Draw(len(l))] }
+
+// uletters: letters outside ASCII, among them the ones whose upper/lower-case
+// mapping changes the encoded length (Kelvin sign, Ohm sign, Angstrom sign, capital
+// sharp s, L with middle tilde, dotted capital I, A/T with stroke, long s), a
+// ligature, a decomposed accent, a zero-width space, CJK, a four-byte rune.
+var uletters = []string{"\u212a", "\u2126", "\u212b", "\u1e9e", "\u2c62", "\u0130", "\u023a", "\u023e", "\u017f", "\u0131", "\ufb01", "e\u0301", "\u200b", "\u540d", "\U0001f600", "\u00e9", "\u03a3", "\u0345"}
+
+// UName draws a short node name (or prefix:name) with letters outside ASCII.
+func (g *Gen) UName() string {
+	t := g.T
+	one := func() string {
+		var b strings.Builder
+		for n := 1 + t.Draw(3); n > 0; n-- {
+			if t.Draw(3) > 0 {
+				b.WriteString(uletters[t.Draw(len(uletters))])
+			} else {
+				b.WriteByte("abxXmM_-.9"[t.Draw(10)])
+			}
+		}
+		return b.String()
+	}
+	if t.Rare(4) {
+		return one() + ":" + one()
+	}
+	return one()
+}
+
+// wellTyped: for each core function a call with the declared number of arguments of the
+// declared types (literals, so that a run gets as far as the function itself).
+var wellTyped = map[string]string{
+	"boolean": "boolean('a')", "ceiling": "ceiling(1.5)", "concat": "concat('a', 'b')", "contains": "contains('abc', 'b')",
+	"re-match": "re-match('eth0', 'eth[0-9]')", "count": "count(*)", "false": "false()", "floor": "floor(1.5)", "last": "last()",
+	"local-name": "local-name(.)", "normalize-space": "normalize-space(' a  b ')", "not": "not(true())", "number": "number('42')",
+	"round": "round(2.5)", "position": "position()", "starts-with": "starts-with('abc', 'a')", "string": "string(42)",
+	"string-length": "string-length('abc')", "substring": "substring('abcde', 2, 3)", "substring-after": "substring-after('a/b', '/')",
+	"substring-before": "substring-before('a/b', '/')", "sum": "sum(*)", "translate": "translate('abc', 'abc', 'xyz')", "true": "true()",
+}
+
+// WellTyped returns a well-typed literal call of the focus function ("" if there is none).
+func (g *Gen) WellTyped() string {
+	if g.Focus <= 0 || g.Focus > len(fnames) {
+		return ""
+	}
+	return wellTyped[fnames[g.Focus-1].n]
+}
+
+// ArityVariant returns a call of the focus function with n literal arguments (any n, right or wrong).
+func (g *Gen) ArityVariant(n int) string {
+	if g.Focus <= 0 || g.Focus > len(fnames) {
+		return ""
+	}
+	args := make([]string, n)
+	for i := range args {
+		args[i] = g.pick([]string{"'a'", "1", "'b'", "2", "true()", "."})
+	}
+	return fnames[g.Focus-1].n + "(" + strings.Join(args, ", ") + ")"
+}
+
+// NumFuncs is the number of function names Func chooses from (for Gen.Focus).
+func NumFuncs() int { return len(fnames) }
 
 // Expr draws an expression.
 func (g *Gen) Expr(depth int) string {
@@ -80,9 +141,16 @@ func (g *Gen) Func(depth int) string {
 	}
 	g.UsedFunc = true
 	f := fnames[g.T.Draw(len(fnames))]
+	wrong := 12
+	if g.Focus > 0 && g.Focus <= len(fnames) && g.T.Coin() {
+		// the case's focus function: machines and compilations of one case meet on the same symbol,
+		// and its calls come with every number of arguments
+		f = fnames[g.Focus-1]
+		wrong = 3
+	}
 	n := f.arity
-	if g.T.Rare(12) { // wrong arity now and then
-		n = g.T.Draw(4)
+	if g.T.Rare(wrong) { // wrong arity now and then
+		n = g.T.Draw(5)
 	}
 	args := make([]string, n)
 	for i := range args {
@@ -219,6 +287,8 @@ func (g *Gen) Path(depth int) string {
 			s := g.pick(stepnames)
 			if t.Rare(4) {
 				s = ".."
+			} else if t.Rare(10) {
+				s = g.UName()
 			}
 			if t.Rare(6) {
 				g.UsedPred = true
@@ -297,7 +367,11 @@ func (g *Gen) Leafref() string {
 		if i > 0 {
 			b.WriteString("/")
 		}
-		b.WriteString(g.pick([]string{"a", "b", "pfx:c", "name", "if", "x"}))
+		if t.Rare(6) {
+			b.WriteString(g.UName())
+		} else {
+			b.WriteString(g.pick([]string{"a", "b", "pfx:c", "name", "if", "x"}))
+		}
 		if t.Rare(4) {
 			b.WriteString("[" + g.pick([]string{"name", "k", "p:id"}) + g.pick([]string{"=", " = "}) + "current()/" + g.pick([]string{"../", "../../"}) + g.pick([]string{"a", "name", "x/y"}) + "]")
 		}
@@ -374,6 +448,8 @@ func (g *Gen) Raw() string {
 			b = append(b, junk[t.Draw(len(junk))]...)
 		} else if t.Coin() {
 			b = append(b, byte(t.Draw(256)))
+		} else if t.Rare(4) {
+			b = append(b, g.UName()...)
 		} else {
 			b = append(b, stepnames[t.Draw(len(stepnames))]...)
 		}
